@@ -34,7 +34,7 @@ Ltac gs_in H :=
                | rewrite gq_sq_other in H by key_neq | rewrite gq_addq_other in H by key_neq | rewrite gl_sl_other in H by key_neq ].
 
 (* case split on whether two keys coincide *)
-Ltac kcase k k' := destruct (key_eq_dec k k') as [?KE|?KN]; [try (inversion KE; subst; clear KE)|].
+Ltac kcase k k' := destruct (key_eq_dec k k') as [?KE|?KN]; [first [progress subst | inversion KE; subst | idtac]|].
 
 (* ---- folds ---- *)
 Lemma fold_left_inv {A B} (P : A -> Prop) (f : A -> B -> A) l : (forall a x, In x l -> P a -> P (f a x)) -> forall a, P a -> P (fold_left f l a).
